@@ -48,7 +48,7 @@ ASSUMPTIONS = [
 
 def plan(tier: str) -> dict:
     if tier == "quick":
-        return {"runs": 260, "wall_s": 150, "task_timeout": 300}
+        return {"runs": 960, "wall_s": 150, "task_timeout": 300}
     return {"runs": 4000, "wall_s": 1500, "task_timeout": 900}
 
 
